@@ -30,6 +30,11 @@ CHECKS = {
         text="Generated-input search over the same 3D domains as C03; for all residue pairs the harness recomputes centroid distance, normal angle and offset angle with its own geometry and demands reported <=> defined (undecided within 1e-6), single report per pair, ordering and topology label family.",
         note=TRUST + "Directed reading of the offset criterion (vector from the later to the earlier residue; normals (N7-N9)x(N3-N9) / (C4-N1)x(O2-N1)) as implemented by the anchored code; see DESIGN C04.",
         ref="3 C04"),
+    "C08": dict(
+        technique="Hypothesis atom tables serialised by independent PDB/mmCIF emitters (round trip through the reader) + corpus files decoded by an independent column slicer / CIF tokenizer (differential)",
+        text="Generated-input search: generated multi-model / altloc / insertion-code / close-pair tables are written as PDB and as mmCIF (both null markers, optionally absent occupancies) and read with every model argument; corpus files (NMR ensembles, altloc files) are decoded independently. The returned residues and atoms must equal the expectation computed from the table: best-occupancy copy per name, one survivor of an isolated <0.5 A pair, file order, exact identities and coordinates, requested model only.",
+        note=TRUST + "Well-formed input only; occupancy ties and clash clusters of >=3 atoms are checked by validity predicates, not exact expectation.",
+        ref="3 C08"),
     "C11": dict(
         technique="corpus + Hypothesis-perturbed and multi-model 3D structures against list invariants and an independent BPh/BR / Saenger reference; exhaustive (base, base, LW) grid for the Saenger lookup",
         text="Generated-input search: every interaction list of every analysed model is checked for repetition, self-interaction, membership in the analysed model, orientation and sort order; Saenger classes against a literal 28-class table (complete 7x7x18 grid, pair vs reverse); BPh/BR classes against the classes implied by base-donor atoms within 4.0 A in the analysed model's coordinates, one class per ordered pair.",
